@@ -38,9 +38,17 @@ def _worker(task):
             for i, ob in enumerate(obs):
                 if i % nshards != shard or (only_names is not None and ob.name not in only_names):
                     continue
-                r = discharge(ob, timeout_ms=timeout_ms, seed=seed)
+                r = discharge(ob, timeout_ms=timeout_ms, seed=seed, strings=bool(ob.meta.get("strings")))
                 r["function"] = qualname
                 out["results"].append(r)
+            if want_canary and shard == 0:
+                # vacuity: the hypotheses of each lemma obligation must not be refutable
+                seen = {}
+                for ob in obs:  # obligations of one lemma often share their hypotheses: one canary per distinct set
+                    key = tuple(h.get_id() for h in ob.hyps)
+                    if key not in seen:
+                        seen[key] = canary(ob.hyps, strings=bool(ob.meta.get("strings")))
+                out["canaries"] = [("lemma", ob.name, seen[tuple(h.get_id() for h in ob.hyps)]) for ob in obs]
             out["seconds"] = round(time.time() - t0, 3)
             return out
         con = S.REGISTRY[qualname]
@@ -56,6 +64,11 @@ def _worker(task):
             out["seconds"] = time.time() - t0
             return out
         out["fingerprint"] = front.fingerprint(ex.fn)
+        if ex.inlined:
+            # the decorator wrappers spliced around the body are part of the verified text: a change in one of them is a change of this function
+            import hashlib
+
+            out["fingerprint"] = hashlib.sha256((out["fingerprint"] + "|".join(ex.inlined)).encode()).hexdigest()[:16]
         out["n_obligations"] = len(obs)
         out["names"] = [o.name for o in obs] if shard == 0 else None
         out["used_contracts"] = sorted(ex.used_contracts)
@@ -74,12 +87,46 @@ def _worker(task):
         if want_canary and shard == 0:
             can = []
             for kind, path, pc in ex.exits:
-                can.append((kind, path, canary(pc)))
+                can.append((kind, path, canary(pc, strings=strings)))
             out["canaries"] = can
     except Exception as e:
         out["error"] = "%s: %s\n%s" % (type(e).__name__, e, traceback.format_exc()[-1500:])
     out["seconds"] = round(time.time() - t0, 3)
     return out
+
+
+def _run_tasks(tasks, procs):
+    """Run the tasks in worker processes; a worker that dies (z3 5.1's sequence solver occasionally segfaults) does not hang or lose the run:
+    its task - and those that were cancelled with it - are run again in fresh processes with another solver seed, up to three times;
+    a task that keeps killing its worker yields a checker-error record (exit 3), never a verdict."""
+    from concurrent.futures import ProcessPoolExecutor, as_completed
+
+    ctx = mp.get_context("fork")
+    outs = [None] * len(tasks)
+    pending = list(range(len(tasks)))
+    attempt = 0
+    while pending and attempt < 3:
+        failed = []
+        todo = []
+        for i in pending:
+            t = list(tasks[i])
+            t[4] = t[4] + 7 * attempt  # another solver seed on a re-run
+            todo.append((i, tuple(t)))
+        workers = min(procs, max(1, len(todo))) if attempt == 0 else min(4, len(todo))
+        with ProcessPoolExecutor(max_workers=workers, mp_context=ctx) as ex:
+            futs = {ex.submit(_worker, t): i for i, t in todo}
+            for f in as_completed(futs):
+                i = futs[f]
+                try:
+                    outs[i] = f.result()
+                except Exception as e:  # BrokenProcessPool: some worker died
+                    failed.append(i)
+        pending = failed
+        attempt += 1
+    for i in pending:
+        q = tasks[i][0]
+        outs[i] = dict(function=q, shard=tasks[i][1], results=[], error="worker process died three times (solver crash) while working on %s shard %d" % (q, tasks[i][1]), seconds=0.0)
+    return outs
 
 
 def run_cone(functions, timeout_ms=10000, seed=0, shards=None, procs=16, want_canary=True, only_names=None):
@@ -90,9 +137,7 @@ def run_cone(functions, timeout_ms=10000, seed=0, shards=None, procs=16, want_ca
         k = shards.get(q, 1)
         for i in range(k):
             tasks.append((q, i, k, timeout_ms, seed, want_canary, only_names))
-    ctx = mp.get_context("fork")
-    with ctx.Pool(min(procs, max(1, len(tasks)))) as pool:
-        outs = pool.map(_worker, tasks, chunksize=1)
+    outs = _run_tasks(tasks, procs)
     merged = {}
     for o in outs:
         m = merged.setdefault(o["function"], dict(function=o["function"], results=[], error=None, unsupported=None, seconds=0.0))
